@@ -55,9 +55,12 @@ class PackageLoader(BaseLoader):
     def _resolve_path(self, template_name: str) -> Traversable:
         template_path = Path(template_name)
 
+        if not template_path.name:
+            raise TemplateNotFoundError(template_name)
+
         # Don't build a path that escapes package/package_path.
-        # Does ".." appear in template_name?
-        if os.path.pardir in template_path.parts:
+        # Does ".." appear in template_name? Is it an absolute path?
+        if os.path.pardir in template_path.parts or template_path.is_absolute():
             raise TemplateNotFoundError(template_name)
 
         # Add suffix self.ext if template name does not have a suffix.
